@@ -21,7 +21,8 @@ CASE_CPU_LIMIT = 30
 RULE = ("straight-line programs over targets A,B,C,D,G,Y and leaves P,R,U,W (length 1-12; reassignment, reads of earlier "
         "values, read-before-definition, piecewise, optional compartmental system); every query "
         "(dependencies, full_expression, find_assignment_index, direct_dependencies for every symbol/statement; "
-        "seeded remove_symbol_definitions and reassign calls). non-trivial = at least 2 statements and at least one "
+        "seeded remove_symbol_definitions, reassign and subs calls); thorough adds ALL programs of length <= 3 over 3 symbols "
+        "and a 7-entry right-hand-side menu (9 723 programs). non-trivial = at least 2 statements and at least one "
         "statement reading another; distinct = distinct case JSON")
 TRUSTED = [
     "Lean 4.33 kernel; axioms propext, Quot.sound, Classical.choice only (audited per theorem each run)",
@@ -117,6 +118,25 @@ def gen_cases(rng: random.Random, n: int, tier: str):
         sub_t = "Q1" if sub_x in TARGETS else rng.choice(["Q1", "(Q1 + 2*Q2)", "Q1*Q1", "7"])
         out.append({"kind": "prog", "ssa": ssa, "stmts": stmts, "rm": rm, "reassign": rs, "subs": [sub_x, sub_t],
                     "seed": rng.randrange(1 << 30)})
+    if tier == "thorough":
+        out += exhaustive_small(3)
+    return out
+
+
+def exhaustive_small(max_len=3):
+    """ALL programs of length <= max_len over symbols A,B,C with right-hand sides from a fixed menu
+    (thorough tier): every shadowing / read-before-definition pattern of that size."""
+    syms = ["A", "B", "C"]
+    rhs = ["1", "A", "B", "C", "A + B", "A + C", "B + C"]
+    stmts = [["=", x, e] for x in syms for e in rhs]
+    out = []
+    seed = 0
+    for n in range(1, max_len + 1):
+        for prog in itertools.product(stmts, repeat=n):
+            seed += 1
+            out.append({"kind": "prog", "ssa": len({s[1] for s in prog}) == n, "stmts": [list(s) for s in prog],
+                        "rm": [[["A"], n - 1], [["B", "C"], n - 1]], "reassign": ["A", "B + 1"], "subs": ["C", "Q1"],
+                        "seed": seed})
     return out
 
 
